@@ -75,10 +75,11 @@ type logEntry struct {
 func (l logEntry) String() string { return l.Kind + " " + l.Subj + " " + l.Data }
 
 type harness struct {
-	conn  *fakeconn.Conn
-	mu    sync.Mutex
-	cur   *EvCall
-	curCb *Callback
+	conn     *fakeconn.Conn
+	mu       sync.Mutex
+	cur      *EvCall
+	curCb    *Callback
+	retained []retainedEvent
 }
 
 func js(v interface{}) string {
@@ -97,12 +98,41 @@ func classOf(rname string) string {
 	return ""
 }
 
+func eventSnapshot(id string, e *res.Event) map[string]interface{} {
+	return map[string]interface{}{
+		"id": id, "name": e.Name, "rname": e.Resource.ResourceName(), "new": js(e.NewValues), "old": js(e.OldValues), "value": js(e.Value), "idx": e.Idx, "data": js(e.Data), "payload": js(e.Payload),
+	}
+}
+
+type retainedEvent struct {
+	id   string
+	e    *res.Event
+	snap string
+}
+
 func (h *harness) listener(id string) func(*res.Event) {
 	return func(e *res.Event) {
-		h.conn.Note("listener", e.Resource.ResourceName(), map[string]interface{}{
-			"id": id, "name": e.Name, "new": js(e.NewValues), "old": js(e.OldValues), "value": js(e.Value), "idx": e.Idx, "data": js(e.Data), "payload": js(e.Payload),
-		})
+		snap := eventSnapshot(id, e)
+		// a listener may keep the event it was handed (e.g. to batch work until the callback ends)
+		h.mu.Lock()
+		h.retained = append(h.retained, retainedEvent{id: id, e: e, snap: js(snap)})
+		h.mu.Unlock()
+		delete(snap, "rname")
+		h.conn.Note("listener", e.Resource.ResourceName(), snap)
 	}
+}
+
+// checkRetained verifies that events handed to listeners earlier still hold what they held then.
+func (h *harness) checkRetained() string {
+	h.mu.Lock()
+	defer h.mu.Unlock()
+	for _, r := range h.retained {
+		if now := js(eventSnapshot(r.id, r.e)); now != r.snap {
+			return fmt.Sprintf("the event handed to listener %s was %s; after later events of the same callback the same *Event reads %s", r.id, r.snap, now)
+		}
+	}
+	h.retained = nil
+	return ""
 }
 
 func (h *harness) current() *EvCall {
@@ -626,6 +656,9 @@ func runCase(c Case) (string, bool) {
 			case "apply", "listener", "panic":
 				got = append(got, logEntry{e.Kind, e.Subject, noteText(e.Note)})
 			}
+		}
+		if msg := h.checkRetained(); msg != "" {
+			return fmt.Sprintf("callback %s on %s: %s", cb.Via, cb.RName, msg), nt
 		}
 		want, failing, invalid, events := predict(c.Cfg, cb, reply)
 		class := classOf(cb.RName)
